@@ -158,9 +158,10 @@ def _pool_collect(fn: Callable[[int], Dict[str, Any]], n: int, workers: int, tim
         shutil.rmtree(tmp, ignore_errors=True)
 
 
-def prepare(seed: int, tier: str, workers: int, calibrate: bool = True) -> Dict[str, Any]:
+def prepare(seed: int, tier: str, workers: int, calibrate: bool = True,
+            corpus_params: Optional[Tuple[int, int]] = None) -> Dict[str, Any]:
     setup_tree()  # import only: the grammar stays cold in this process
-    ntmpl, maxb = CORPUS[tier]
+    ntmpl, maxb = corpus_params or CORPUS[tier]
     docs = corpus.build_corpus(seed, ntmpl, maxb)
     n = len(docs) * 2
     pr = _pool_collect(lambda k: _pristine_job(docs, k), n, workers, 120.0)
